@@ -98,7 +98,9 @@ namespace c02
             NONE,
             VALUE,
             COPY,
-            MOVE
+            MOVE,
+            CASSIGN, // copy assignment
+            MASSIGN  // move assignment
         };
         static inline int armed = NONE, countdown = 0;
         static void arm(int kind, int n)
@@ -120,8 +122,100 @@ namespace c02
         Throwing(int id) : Tracked(tick(VALUE) + id) {}
         Throwing(const Throwing &o) : Tracked((tick(COPY), static_cast<const Tracked &>(o))) {}
         Throwing(Throwing &&o) : Tracked((tick(MOVE), static_cast<Tracked &&>(o))) {} // deliberately not noexcept
-        Throwing &operator=(const Throwing &) = default;
-        Throwing &operator=(Throwing &&) = default;
+        Throwing &operator=(const Throwing &o)
+        {
+            tick(CASSIGN); // throws before anything is assigned
+            Tracked::operator=(static_cast<const Tracked &>(o));
+            return *this;
+        }
+        Throwing &operator=(Throwing &&o)
+        {
+            tick(MASSIGN);
+            Tracked::operator=(static_cast<Tracked &&>(o));
+            return *this;
+        }
+    };
+    // ------------------------------------------------------------ element types with mixed triviality
+    // TrivAssign: constructors and destructor register in the Tracked registry (keyed by address, no heap
+    // cell), copy assignment is implicit and TRIVIAL: a container that picks a memcpy path by looking at the
+    // wrong trait (is_trivially_copy_assignable) skips constructions / destructions this type makes visible.
+    struct TrivAssign
+    {
+        int v;
+        void born()
+        {
+            vf::TrackedReg &r = vf::treg();
+            if (r.live.count(this))
+                Tracked::err("construct-over-live", this);
+            r.live[this] = 1;
+            r.constructed++;
+        }
+        TrivAssign() : v(0) { born(); }
+        TrivAssign(int id) : v(id) { born(); }
+        TrivAssign(const TrivAssign &o) : v(o.id()) { born(); }
+        ~TrivAssign()
+        {
+            vf::TrackedReg &r = vf::treg();
+            auto it = r.live.find(this);
+            if (it == r.live.end())
+            {
+                Tracked::err("destroy-nonlive", this);
+                return;
+            }
+            r.live.erase(it);
+            r.destroyed++;
+        }
+        TrivAssign &operator=(const TrivAssign &) = default;
+        int id() const
+        {
+            if (!Tracked::is_live(this))
+            {
+                Tracked::err("read-nonlive", this);
+                return -3;
+            }
+            return v;
+        }
+        friend bool operator==(const TrivAssign &a, const TrivAssign &b) { return a.id() == b.id(); }
+        friend bool operator!=(const TrivAssign &a, const TrivAssign &b) { return a.id() != b.id(); }
+        friend bool operator<(const TrivAssign &a, const TrivAssign &b) { return a.id() < b.id(); }
+    };
+    static_assert(std::is_trivially_copy_assignable_v<TrivAssign> && !std::is_trivially_copy_constructible_v<TrivAssign> &&
+                  !std::is_trivially_destructible_v<TrivAssign>);
+    template <> struct El<TrivAssign>
+    {
+        static constexpr const char *name = "TrivAssign";
+        static constexpr bool tracked = true;
+        static constexpr int default_id = 0;
+        static TrivAssign make(int id) { return TrivAssign(id); }
+        static int arg(int id) { return id; }
+        static int id(const TrivAssign &x) { return x.id(); }
+    };
+    // TrivLife: the mirror image - trivial construction / destruction, user-provided assignment (which keeps a
+    // checksum member in step, so an element that was block-copied over half-way or never assigned shows)
+    struct TrivLife
+    {
+        int v;
+        int twice;
+        TrivLife &operator=(const TrivLife &o)
+        {
+            v = o.v;
+            twice = 2 * o.v;
+            return *this;
+        }
+        friend bool operator==(const TrivLife &a, const TrivLife &b) { return a.v == b.v; }
+        friend bool operator!=(const TrivLife &a, const TrivLife &b) { return a.v != b.v; }
+        friend bool operator<(const TrivLife &a, const TrivLife &b) { return a.v < b.v; }
+    };
+    static_assert(std::is_trivially_copy_constructible_v<TrivLife> && std::is_trivially_destructible_v<TrivLife> &&
+                  !std::is_trivially_copy_assignable_v<TrivLife>);
+    template <> struct El<TrivLife>
+    {
+        static constexpr const char *name = "TrivLife";
+        static constexpr bool tracked = false;
+        static constexpr int default_id = 0;
+        static TrivLife make(int id) { return TrivLife{id, 2 * id}; }
+        static TrivLife arg(int id) { return make(id); }
+        static int id(const TrivLife &x) { return x.twice == 2 * x.v ? x.v : -7; }
     };
     template <> struct El<Throwing>
     {
@@ -530,7 +624,11 @@ namespace c02
                     fired_kind = k;
                     if (vf::verbose())
                         printf("    -> injected fault: construction #%d of kind %d threw\n", c, k);
-                    trace += k == Throwing::VALUE ? "!value-ctor-threw" : k == Throwing::COPY ? "!copy-ctor-threw" : "!move-ctor-threw";
+                    trace += k == Throwing::VALUE    ? "!value-ctor-threw"
+                             : k == Throwing::COPY   ? "!copy-ctor-threw"
+                             : k == Throwing::MOVE   ? "!move-ctor-threw"
+                             : k == Throwing::CASSIGN ? "!copy-assignment-threw"
+                                                      : "!move-assignment-threw";
                     return true;
                 }
                 catch (...)
@@ -576,7 +674,7 @@ namespace c02
         // a throwing MOVE during the reallocation, and every other operation, only keeps the vector valid
         void after_throw(bool append)
         {
-            if (append && fired_kind != Throwing::MOVE)
+            if (append && (fired_kind == Throwing::VALUE || fired_kind == Throwing::COPY))
             {
                 VF_OK("append whose element constructor threw left the sequence unchanged");
                 return; // verify() below compares with the unchanged model
@@ -737,13 +835,18 @@ namespace c02
             case ERASE_RANGE:
                 if constexpr (Fam::template range_erase<T>)
                 {
-                    v->erase(v->begin() + o.a, v->begin() + o.b);
-                    m.erase(m.begin() + o.a, m.begin() + o.b);
+                    // erase shifts the tail down by assignment: a throwing assignment may leave any valid state
+                    if (guarded([&] { v->erase(v->begin() + o.a, v->begin() + o.b); }))
+                        after_throw(false);
+                    else
+                        m.erase(m.begin() + o.a, m.begin() + o.b);
                 }
                 break;
             case ERASE_POS:
-                v->erase(v->begin() + o.a);
-                m.erase(m.begin() + o.a);
+                if (guarded([&] { v->erase(v->begin() + o.a); }))
+                    after_throw(false);
+                else
+                    m.erase(m.begin() + o.a);
                 break;
             case POP_BACK:
                 v->pop_back();
@@ -1124,7 +1227,7 @@ namespace c02
     //      throwing at its 1st..(n+3)-th call, followed by further operations and the destructor
     static inline bool fault_relevant(int k)
     {
-        return k <= EMPLACE_ALIAS || k == RESIZE || k == RESERVE || k == COPY_CTOR || k == COPY_ASSIGN_FROM || k == COPY_ASSIGN_TO || k == CTOR_IL ||
+        return k <= EMPLACE_ALIAS || k == ERASE_RANGE || k == ERASE_POS || k == RESIZE || k == RESERVE || k == COPY_CTOR || k == COPY_ASSIGN_FROM || k == COPY_ASSIGN_TO || k == CTOR_IL ||
                k == CTOR_RANGE || k == CTOR_N;
     }
     static uint64_t fault_count() { return 5ull * 4 * ENUM_SLOTS; }
@@ -1147,7 +1250,7 @@ namespace c02
         if ((size_t)slot >= ops.size() || !fault_relevant(ops[slot].kind))
             return;
         uint64_t seqs = 0, fired = 0;
-        for (int kind = 1; kind <= 3; kind++)
+        for (int kind = 1; kind <= 5; kind++) // value / copy / move constructor, copy / move assignment
             for (int c = 1; c <= n + 3; c++)
             {
                 Hist<T> h;
@@ -1209,7 +1312,7 @@ namespace c02
             if constexpr (Hist<T>::throwing)
                 if (r.chance(1, 2))
                 {
-                    h.fault_kind = fk = 1 + (int)r.below(3);
+                    h.fault_kind = fk = 1 + (int)r.below(5);
                     h.fault_countdown = fc = 1 + (int)r.below(6);
                 }
             h.apply(o);
